@@ -174,7 +174,7 @@ def make_case(rnd, wd, shape, tmpdir_tokens_with_one_iteration=True, dated_first
         # a first line of standard output that carries a date decades away from today (ordinary content)
         rest = beh['stdout'].split('\n', 1)[1] if '\n' in beh['stdout'] else ''
         beh['stdout'] = dated_first_line + '\n' + rest
-    if ipaddr and rnd.random() < 0.25:
+    if ipaddr and beh['stdout'].strip() and rnd.random() < 0.25:         # (never as the FIRST line: perturbations edit the first line, which carries no machine token)
         beh['stdout'] = beh['stdout'] + ('' if beh['stdout'].endswith('\n') or not beh['stdout'] else '\n') + 'listening on %s port 80\n' % ipaddr
     if beh['stderr'] and rnd.random() < 0.6:
         # a stderr line that mentions the machine (host / user / working directory)
